@@ -47,6 +47,7 @@ type Task struct {
 	Site      int // last yield site (-1 at start)
 	blockedOn any // simulated lock the task waits for
 	wantRead  bool
+	afterStop int
 	kids      int
 	locks     int // simulated locks held
 	rng       *rand.Rand
@@ -94,6 +95,9 @@ type Sim struct {
 	LockBlocks atomic.Int64
 	PoolReuse  atomic.Int64
 }
+
+// stopBudget is the number of statements a task may still execute after Stop.
+const stopBudget = 3000
 
 var cur atomic.Pointer[Sim]
 
@@ -390,11 +394,16 @@ func Yield(site int) {
 		return
 	}
 	if s.stopping.Load() {
+		// Teardown: tasks run on freely so that goroutines waiting for them (a handler
+		// waiting for its copy loops) can finish; a task that is still executing
+		// statements long after the stop is a loop and ends here.
 		if t := s.current(); t != nil {
 			s.mu.Lock()
 			held := t.locks
+			t.afterStop++
+			n := t.afterStop
 			s.mu.Unlock()
-			if held == 0 {
+			if held == 0 && n > stopBudget {
 				runtime.Goexit()
 			}
 		}
@@ -413,14 +422,6 @@ func Yield(site int) {
 	s.mu.Unlock()
 	s.Yields.Add(1)
 	t.park()
-	if s.stopping.Load() {
-		s.mu.Lock()
-		held := t.locks
-		s.mu.Unlock()
-		if held == 0 {
-			runtime.Goexit()
-		}
-	}
 }
 
 // Go starts f as a child task when the caller is a task, otherwise as a plain goroutine.
@@ -674,6 +675,16 @@ func DialerDial(d *net.Dialer) func(network, addr string) (net.Conn, error) {
 			return s.Dial(context.Background(), network, addr, d.Timeout, d.KeepAlive)
 		}
 		return d.Dial(network, addr)
+	}
+}
+
+// DialerDialContext replaces the method value (&net.Dialer{...}).DialContext.
+func DialerDialContext(d *net.Dialer) func(ctx context.Context, network, addr string) (net.Conn, error) {
+	return func(ctx context.Context, network, addr string) (net.Conn, error) {
+		if s := cur.Load(); s != nil && s.Dial != nil {
+			return s.Dial(ctx, network, addr, d.Timeout, d.KeepAlive)
+		}
+		return d.DialContext(ctx, network, addr)
 	}
 }
 
